@@ -111,28 +111,12 @@ func genRule(r *rand.Rand, tame bool) Rule {
 	}
 	for i := 0; i < np; i++ {
 		p := genPeer(r)
-		if tame {
-			for p.Kind == "pod" || p.Kind == "both" {
-				p = genPeer(r)
-			}
-			if p.Kind == "ip" && i > 0 {
-				p.Except = nil
-			}
-		}
 		ru.Peers = append(ru.Peers, p)
 	}
-	if tame { // at most one ipBlock with excepts, and then it is the only ipBlock
-		nb := 0
-		for _, p := range ru.Peers {
-			if p.Kind == "ip" {
-				nb++
-			}
-		}
-		if nb > 1 {
-			for i := range ru.Peers {
-				ru.Peers[i].Except = nil
-			}
-		}
+	if tame {
+		// excepts strictly narrower than their own cidr (whether the other conditions of the fragment hold — pod
+		// selectors matching only where the API looks, excepts disjoint from the other ipBlocks — is decided per case by
+		// `inFragment`; about half of the tame cases are inside)
 		for i := range ru.Peers {
 			var ex []Cidr
 			for _, e := range ru.Peers[i].Except {
